@@ -392,7 +392,9 @@ func runEpisode(bin string, e episode, timeout time.Duration) (*childResult, str
 	defer os.RemoveAll(tmp)
 	outp := filepath.Join(tmp, "result.json")
 	args := []string{"-seed", fmt.Sprint(e.seed), "-procs", fmt.Sprint(e.procs), "-goroutines", fmt.Sprint(e.gor), "-ops", fmt.Sprint(e.ops), "-out", outp}
-	args = append(args, "-discipline", "strict")
+	// fault: the first level-0 listing DB.init makes for every fresh DB object fails (remote unreachable at
+	// start-up): the first initialisation fails AFTER the read transaction was taken, the retry succeeds
+	args = append(args, "-discipline", "strict", "-listfail", "1")
 	if e.profile == "core" {
 		// the operations of the property without the triggers of the findings recorded in KNOWN_FINDINGS.json
 		// (object lifecycle races of Store.Register/Unregister/Enable/Disable/SyncDB, DB.init after a cancelled
